@@ -23,8 +23,9 @@ var FilterFuncs = map[string]iso8583.FilterFunc{
 	"Track2Filter": iso8583.Track2Filter, "Track3Filter": iso8583.Track3Filter,
 }
 
-// CarrierField holds text as a String field whose Pack/Unpack round-trips every byte string
-// (Binary encoding, LLL prefix), so that newTrackData hands exactly `in` to the track parser.
+// CarrierField holds text as a String field (Binary encoding, LLL prefix). The filters take a
+// `data field.Field` argument; since newTrackData parses the text itself it is no longer used
+// by them, a field holding the same text is passed for completeness.
 func CarrierField(in string) field.Field {
 	f := field.NewString(&field.Spec{Length: 999, Description: "carrier", Enc: encoding.Binary, Pref: prefix.ASCII.LLL})
 	f.SetValue(in)
